@@ -24,7 +24,9 @@ Record observed := {
   o_orgs : list bs;             (* sorted *)
   o_groups : list bs;           (* sorted *)
   o_methods : list bs;          (* sorted *)
-  o_krb : option (bs * bs) }.
+  o_krb : option (bs * bs);
+  o_other_names : list bs }.    (* every other identity found in the decoded certificate, tagged ("dns:...", "email:...",
+                                   "uri:...", "ip:...", "dirname", "othername:<oid>", "ou:...", "cn#2:...", "critical:...") *)
 
 Fixpoint list_bs_eqb (a b : list bs) : bool :=
   match a, b with
@@ -63,7 +65,8 @@ Definition desc_matches (d : certdesc) (o : observed) : bool :=
   Bool.eqb (has_eku EkuPkinitClient (d_ekus d)) (o_eku_pkinit o) &&
   exts_eqb (d_exts d) (o_exts o) && (d_signer d =? o_signer o) &&
   list_bs_eqb (d_orgs d) (o_orgs o) && list_bs_eqb (d_groups d) (o_groups o) &&
-  list_bs_eqb (d_methods d) (o_methods o) && opt_pair_eqb (d_krb d) (o_krb o).
+  list_bs_eqb (d_methods d) (o_methods o) && opt_pair_eqb (d_krb d) (o_krb o) &&
+  list_bs_eqb (d_other_names d) (o_other_names o).
 
 Definition outcome_matches (r : outcome) (o : observed) : bool :=
   match r with
@@ -128,7 +131,8 @@ Definition c02_bad (c : c02case) : bool :=
    submitted key; 4 = not an end-entity user certificate; 5 = does not verify under what the server
    publishes; 6 = the SSH extension map is not exactly the five standard names plus every configured
    template expanded for the user (a template that cannot be expanded: nothing may be issued);
-   7 = neither a certificate nor an error *)
+   7 = neither a certificate nor an error; 8 = the certificate carries a further identity beside the
+   authenticated user's name *)
 Definition is_some {A} (o : option A) : bool := match o with Some _ => true | None => false end.
 Definition exts_violate (expand : bs -> bs -> option bs) (tpl : list (bs * bs)) (user : bs) (obs : list (bs * bs)) : bool :=
   negb (forallb (fun kv => is_some (expand (fst kv) user) && is_some (expand (snd kv) user)) tpl) ||
@@ -141,6 +145,7 @@ Definition c02_violation (c : c02case) : N :=
   if negb (o_issued o) then (if o_error o then 0 else 7)
   else if negb (bs_eqb (k_user c) (k_target c)) then 1
   else if negb (list_bs_eqb (o_names o) [k_user c]) then 2
+  else if negb (list_bs_eqb (o_other_names o) []) then 8
   else if negb (match k_key c with Some (k, _) => o_key o =? k | None => false end) then 3
   else if negb (o_user_type o) || o_is_ca o || (negb (o_ssh o) && negb (o_eku_client o)) then 4
   else if negb (Seal.mem (o_signer o) (if o_ssh o then published_ssh st else published_x509 st)) then 5
